@@ -143,7 +143,13 @@ impl<S: Stream + Unpin> Stream for MergeUnbounded<S> {
                 }
             }
         }
-        Poll::Pending
+        if groups.iter().all(|g| g.streams.is_empty()) {
+            // every stream ended during this call, but re-adding the emptied
+            // last group has used up one of the loop's iterations
+            Poll::Ready(None)
+        } else {
+            Poll::Pending
+        }
     }
 }
 
